@@ -56,10 +56,22 @@ def coq_makefile():
             raise RuntimeError("coq_makefile failed: " + e)
 
 
-def gen_consts():
-    """regenerate coq/Gen/Consts.v from /repo's current sources; returns (ok, message)"""
-    rc, o, e = sh([sys.executable, os.path.join(VERIF, "tools", "gen_consts.py")], timeout=120)
-    return rc == 0, (o + e).strip()
+def gen_consts(tag=None):
+    """regenerate coq/Gen/Consts.v from /repo's current sources; returns (ok, message).
+    Patterns missing for another property's drop-in (tools/gen_consts_d/<tag>_*.py) do not count."""
+    with Lock("gen_consts"):
+        rc, o, e = sh([sys.executable, os.path.join(VERIF, "tools", "gen_consts.py")], timeout=120)
+        miss = {}
+        try:
+            miss = json.load(open(os.path.join(COQ, "Gen", "missing.json")))
+        except Exception:
+            pass
+    bad = list(miss.get("core", []))
+    if tag:
+        bad += miss.get(tag.lower(), [])
+    if rc != 0 and not bad:
+        bad = [(o + e).strip()[-500:]]
+    return (not bad), "; ".join(bad)
 
 
 def coq_gate():
@@ -120,10 +132,10 @@ def coq_build(prop_file, timeout=1500):
     return res
 
 
-def model_build():
-    """extract the models and build the OCaml drivers (incremental)."""
-    with Lock("ocaml"):
-        rc, o, e = sh("make -s -C %s all" % OCAML, timeout=900)
+def model_build(*drivers):
+    """extract the models and build the OCaml drivers named (incremental); e.g. model_build("msg")"""
+    with Lock("coq"):
+        rc, o, e = sh([os.path.join(VERIF, "tools", "build_models.sh")] + list(drivers), timeout=2400)
         if rc != 0:
             raise RuntimeError("model build failed:\n" + (o + e)[-3000:])
 
